@@ -118,6 +118,16 @@ TRUE_PREDS = {
 }
 PRED2['t2'] = lambda a, b: True
 
+
+def same_key_pred(name):
+    """assert_1 predicate: previous and current item have the same value of key function `name` (true by construction for two
+    items of one split(name) segment; false for the last item of a segment and the first of the next)"""
+    kf = KEYS[name][0]
+
+    def same(prev, cur):
+        return bool(kf(prev) == kf(cur))
+    return same
+
 # ---- key functions: equal but never identical results ------------------------
 _k('k_mod2', 'int')(lambda v: v % 2)
 _k('k_mod3', 'int')(lambda v: v % 3)
@@ -167,6 +177,8 @@ class Plain(object):
 
 _PLAIN = [Plain(0), Plain(1), Plain(2)]
 _k('rv_obj', 'rec')(lambda r: _PLAIN[r.v % 3])          # the very same object for equal predicate values; a copy would differ
+# a text key and the int that equals its hash: different keys (a lookup structure that stores hash(key) for text would merge them)
+_k('rv_strhash', 'rec')(lambda r: ['ab', hash('ab'), b'cd', hash(b'cd'), 'ab'][r.v % 5])
 # an impure key mapper (round-robin sharding: the answer does not depend on the item).  The builder creates a fresh
 # counter per pipeline and records every answer; the partition model uses the recorded answers (one call per item)
 _k('rr3', 'rec_impure')(lambda r: 0)
@@ -353,6 +365,10 @@ def time_of_days(r):
 
 def time_of_np_int(r):
     return _np.int64(r.t)                 # comparisons on numpy scalars answer numpy.bool_
+
+
+def time_of_np_uint(r):
+    return _np.uint64(r.t)          # an unsigned counter: a subtraction of a later from an earlier timestamp would wrap around
 
 
 def time_of_np_float(r):
